@@ -55,6 +55,7 @@ def cases(tier, seed):
             ('mefnone', [False, True]),                                   # a manufacturer value given as None in the bead rows
             ('samplevolt', ['recorded', 'absent']),
             ('chnames', ['plain', 'blank']),
+            ('beadsref', ['own', 'failed-row']),                            # rows that ask for no MEF name a bead row whose file is missing (no fault: no calibration is needed)
             ('hdr', ['plain', 'blanks']),                                 # blanks around / inside the '<channel> Units' headers (allowed by the documented header pattern)
             ('clock', ['ticks', 'flat', 'btim-equal', 'btim', 'none'])]   # how the files record time: 'flat' and 'btim-equal' give an acquisition time of exactly 0 s, 'none' no time at all                              # fluorescence channel names with a blank inside                       # sample files that do not record the optional detector voltage
     # (floating-point files always hold a few scatter events beyond the declared range: they are not clipped by the instrument)
@@ -148,6 +149,12 @@ def build_experiment(c, d):
             samples.append(dict(id='S%d' % (k + 1), inst=inst['id'], beads=mybeads[(k // max(1, len(insts))) % len(mybeads)]['id'] if mybeads else None, file='sub/cells%d.fcs' % k,
                                 gate_fraction=cfg['gf'], units={inst['fl'][0]: u[0], inst['fl'][1]: u[1]}, inst_obj=inst))
         hist = cfg['hist']
+        if cfg.get('beadsref') == 'failed-row':
+            beads.insert(0, dict(id='BX', inst=insts[0]['id'], file='no_such_beads.fcs', gate_fraction=0.3, cluster=', '.join(insts[0]['fl']),
+                                 mef={ch: '0, 100, 1000, 10000' for ch in insts[0]['fl']}, inst_obj=insts[0], expect_error=True))
+            for s_ in samples:
+                if not any((u_ or '').lower() == 'mef' for u_ in s_['units'].values()):
+                    s_['beads'] = 'BX'
         if cfg.get('failed_row', 'none') != 'none' and samples:
             bad = dict(samples[0], id='SX', file='sub/no_such_file.fcs', expect_error=True)
             samples.insert(0 if cfg['failed_row'] == 'first' else max(1, len(samples) // 2), bad)
@@ -264,7 +271,7 @@ def run_case(c):
                 return res
             bead_fx = {}
             for b in beads:
-                if any(b['mef'].values()):
+                if any(b['mef'].values()) and not b.get('expect_error'):
                     bead_fx[b['id']] = hand_beads(b, d)
             for srow in samples:
                 sid = srow['id']
